@@ -9,7 +9,7 @@ NOTES = ("All checks are generated-input search against an explicit oracle (rapi
          "enumeration, libFuzzer with in-target oracles, allocation-fault enumeration). ./check <id> rebuilds libhtp from /repo's working "
          "tree by content hash before every run. Known findings: /verif/known_findings.json. Design: /verif/DESIGN.md.")
 ENGINES = [
-    {"name": "rapidcheck", "path": "/verif/harness/rcx.hpp", "serves_properties": ["C02", "C03", "C04", "C05", "C06", "C07", "C10", "C11", "C12", "C13", "C14", "C15", "C16", "C17", "C18", "C19"], "kind_free_text": "property-based testing with integrated shrinking"},
+    {"name": "rapidcheck", "path": "/verif/harness/rcx.hpp", "serves_properties": ["C02", "C03", "C04", "C05", "C06", "C07", "C10", "C11", "C12", "C13", "C14", "C08", "C15", "C16", "C17", "C18", "C19"], "kind_free_text": "property-based testing with integrated shrinking"},
     {"name": "libFuzzer", "path": "/verif/fuzz/fuzz_stream.cpp", "serves_properties": ["C01", "C05", "C06", "C09", "C10"], "kind_free_text": "coverage-guided fuzzing, structure-aware decode, in-target oracles"},
     {"name": "enumerators", "path": "/verif/checks", "serves_properties": ["C12", "C13", "C15", "C17", "C18"], "kind_free_text": "exhaustive bounded enumeration, shortest first, sharded over 16 processes"},
 ]
@@ -40,6 +40,12 @@ META = {
         level_text=("Hundreds (quick) / thousands (thorough) of coded bodies, each under all single cuts of the compressed stream, 1-byte delivery and random multi-cuts, are delivered exactly; "
                     "bomb scenarios up to 40 MB expanded never exceed max(limit, 2048 x compressed) + 8192 at any callback. Exploration."),
         design_ref="DESIGN.md section 3, C07", level_note="Trusted: zlib and liblzma as encoders, the scenario builder in checks/c07.cpp. D7 (restart loses earlier bytes) is a known finding attributed through trace point T3; D8 and D39 were repaired."),
+    "C08": dict(
+        engine="rapidcheck pattern generator + deterministic basic-block cost meter (trace-pc-guard)",
+        technique="property-based testing with a metamorphic scaling oracle: generated pump patterns measured on a doubling ladder with a deterministic work counter (compiler-inserted basic-block callbacks); the relation checked is W(2k)-W(k) proportional to L(2k)-L(k)",
+        level_text=("All 44 (state, unit) patterns and sampled parameter / delivery / personality combinations scale linearly up to k = 4096 (16384 thorough), except the listed known findings. Exploration: "
+                    "constructs outside the token dictionary are not measured."),
+        design_ref="DESIGN.md section 3, C08", level_note="Trusted: the compiler's coverage instrumentation as the work measure. D15a (distinct header names) and D15b (response chunk-size line) are known findings; D46 (empty chunk lines) was repaired."),
     "C09": dict(
         engine="libFuzzer (fuzz_stream) + API contract monitor",
         technique="coverage-guided fuzzing with an in-target contract monitor evaluated after every data call (return code set, consumed counts, sticky ERROR/STOP, byte counters)",
